@@ -566,6 +566,9 @@ func EVAL(ctx context.Context, ast MalType, env EnvType) (res MalType, e error) 
 				ast = a2
 			}
 		case "fn":
+			if len(ast.(List).Val) < 2 {
+				return nil, lisperror.NewLispError(errors.New("fn requires a parameter list"), ast)
+			}
 			fn := MalFunc{
 				Eval:    EVAL,
 				Exp:     List{Val: append([]MalType{Symbol{Val: "do"}}, ast.(List).Val[2:]...)},
